@@ -9,7 +9,8 @@ inline Triangle normTri(Triangle t) { t.rot(); return t; }
 inline int boneLimitFor(const NiVersion& v) { return (v.IsOB() || v.IsFO3()) ? 18 : v.IsSSE() ? 80 : 65535; }
 
 // requireCover: every shape triangle must lie in exactly one partition (false: at most one)
-inline std::vector<std::string> checkPartitions(NifFile& nif, NiShape* s, bool requireCover, long* trianglesChecked = nullptr) {
+// exactVertexMap: the vertex map must equal the set of used vertices (after a rebuild); false: it only has to contain them (after vertex deletion)
+inline std::vector<std::string> checkPartitions(NifFile& nif, NiShape* s, bool requireCover, long* trianglesChecked = nullptr, bool exactVertexMap = true) {
 	std::vector<std::string> err;
 	auto& hdr = nif.GetHeader();
 	auto si = hdr.GetBlock<NiSkinInstance>(s->SkinInstanceRef());
@@ -32,7 +33,8 @@ inline std::vector<std::string> checkPartitions(NifFile& nif, NiShape* s, bool r
 		for (auto& t : p.trueTriangles) { used.insert(t.p1); used.insert(t.p2); used.insert(t.p3); }
 		std::set<uint16_t> vm(p.vertexMap.begin(), p.vertexMap.end());
 		if (vm.size() != p.vertexMap.size()) err.push_back(fmt("vertex-map-duplicates(p%zu)", pi));
-		if (vm != used) err.push_back(fmt("vertex-map!=used-vertices(p%zu: %zu vs %zu)", pi, vm.size(), used.size()));
+		if (exactVertexMap) { if (vm != used) err.push_back(fmt("vertex-map!=used-vertices(p%zu: %zu vs %zu)", pi, vm.size(), used.size())); }
+		else if (!std::includes(vm.begin(), vm.end(), used.begin(), used.end())) err.push_back(fmt("vertex-map-misses-used-vertices(p%zu)", pi));
 		for (auto v : p.vertexMap) if (v >= nv) { err.push_back(fmt("vertex-map-out-of-range(p%zu)", pi)); break; }
 		if (p.numVertices != p.vertexMap.size()) err.push_back(fmt("numVertices-counter(p%zu)", pi));
 		if (p.numTriangles != p.trueTriangles.size() && p.numStrips == 0) err.push_back(fmt("numTriangles-counter(p%zu: %u vs %zu)", pi, p.numTriangles, p.trueTriangles.size()));
